@@ -7,6 +7,7 @@ import itertools
 from ..core import AnalysisError, call_name, dotted, norm, walk_no_nested
 from ..guards import sites, terminates
 from ..registry import describe, rule
+from .. import tmatch as tm
 from ..util import calls_named, peel, resolve, returns_of
 
 DAGF = "pgmpy/base/DAG.py"
@@ -419,6 +420,42 @@ def pure(rc):
                     construct=f"{name} {m.root}: {norm(m.node, 100)}")
 
 
+@rule("C18.imap", "minimal_imap gives every variable a parent set: when no proper subset of its predecessors screens off the rest, all predecessors become parents", floor=2)
+def imap(rc):
+    """Necessary for the result to be an I-map: a variable that depends on ALL of its predecessors (no proper subset S with X ⟂ pred∖S | S) must get
+    all of them as parents.  Structurally: some edge-adding site of the per-variable loop must be reachable on a path that is not conditioned on a
+    positive answer of check_independence; otherwise such a variable gets no parents and the graph asserts independencies that do not hold."""
+    from ..guards import A, Not, implies, path_formula, show_formula
+    repo = rc.repo
+    f = repo.func(JPD, "JointProbabilityDistribution.minimal_imap")
+    adds = sites(f.node, lambda n: isinstance(n, ast.Call) and call_name(n) in ("add_edges_from", "add_edge"))
+    if not adds:
+        raise AnalysisError("minimal_imap: no edge-adding site")
+
+    def atomize(e):
+        if isinstance(e, ast.Call) and call_name(e) == "check_independence":
+            return A("independent")
+        return None
+
+    uncond = False
+    for s_ in adds:
+        fm = path_formula(s_, atomize)
+        needs_indep = implies(fm, A("independent"), extra_atoms=("independent",))[0]
+        rc.ob(f"minimal_imap: {norm(s_.node, 70)} under {show_formula(fm)} (requires a positive independence test: {needs_indep})")
+        if not needs_indep:
+            uncond = True
+    if not uncond:
+        rc.fail(f, adds[0].node, "minimal_imap adds parents only for subsets that pass check_independence and only tries PROPER subsets of the predecessors: a variable that "
+                "depends on all its predecessors gets no parents at all, so the returned graph encodes independencies that do not hold (two dependent variables -> no edge; "
+                "a generic joint -> the empty graph)", construct="minimal_imap no fallback to all predecessors")
+    calls = [c for c in repo.calls_in(f) if call_name(c) == "check_independence"]
+    for c in calls:
+        okc = len(c.args) >= 3 and tm.is_(c.args[1], "set(_u) - set(_s)") is not None and dotted(c.args[2]) == tm.is_(c.args[1], "set(_u) - set(_s)")["_s"]
+        rc.ob(f"minimal_imap: independence asked as X ⟂ pred∖S | S: {bool(okc)}")
+        if not okc:
+            rc.fail(f, c, "the screening test must be X ⟂ (predecessors ∖ S) | S for the candidate parent set S", construct="minimal_imap screening test")
+
+
 @rule("C18.symmetry", "IndependenceAssertion: __eq__ accepts the swap of the first two events iff __hash__ is invariant under it", floor=2)
 def symmetry(rc):
     repo = rc.repo
@@ -452,6 +489,11 @@ def defuse(rc):
     _sh.defuse_rule(rc, _sh.anchor_files("C18"))
 
 MUTANTS = [
+    dict(kind="repair", name="minimal-imap-falls-back-to-all-predecessors", file=JPD,
+         old="                    G.add_edges_from(\n                        [(variable, order[variable_index]) for variable in subset]\n                    )\n        return G",
+         new="                    G.add_edges_from(\n                        [(variable, order[variable_index]) for variable in subset]\n                    )\n                    separated = True\n            if not separated:\n                G.add_edges_from([(variable, order[variable_index]) for variable in u])\n        return G"),
+    dict(kind="break", name="minimal-imap-conditions-on-the-removed-set", file=JPD, expect="C18.imap",
+         old="[order[variable_index]], set(u) - set(subset), subset, True", new="[order[variable_index]], set(u) - set(subset), set(u) - set(subset), True"),
     dict(kind="break", name="check-independence-on-self", file=JPD, expect="C18.pure",
          old="        JPD = self.copy()\n        if isinstance(event1, str):", new="        JPD = self\n        if isinstance(event1, str):"),
     dict(kind="break", name="weak-union-only-for-single-left", file=IND, expect="C18.contraction",
